@@ -70,8 +70,8 @@ def amplitude_normalise(X, thresh=1e-10, clip=False, interp_method='pchip',
                                                                                           thresh,
                                                                                           max_iters))
 
-    # Don't normalise in place
-    X = X.copy()
+    # Don't normalise in place (and never into an integer-typed buffer)
+    X = X.astype(float)
 
     orig_dim = X.ndim
     if X.ndim == 2:
